@@ -64,7 +64,13 @@ KNOWN_PUBLIC = {
 def _is_candidate_name(nm: str) -> bool:
     if nm.startswith("__") and nm.endswith("__"):
         return False
-    return nm not in KNOWN_HELPERS and nm not in KNOWN_PUBLIC
+    if nm in KNOWN_HELPERS or nm in KNOWN_PUBLIC:
+        return False
+    # a helper that merges / generalises known helpers under a shortened name (`_append_patterns` for `_append_patterns_list` + `_append_patterns_from_file`)
+    # plays their role: the rules anchored on that role look for the call, so it stays a call
+    if len(nm) >= 8 and any(k.startswith(nm) for k in KNOWN_HELPERS):
+        return False
+    return True
 
 
 class _Refuse(Exception):
@@ -686,7 +692,23 @@ class Inliner:
             val = direct if direct is not None else ast.Name(id=retvar, ctx=ast.Load())
             if ctx == "assign":
                 if not (ast.unparse(val) == ast.unparse(s.targets[0]) or (isinstance(val, ast.Tuple) and isinstance(s.targets[0], ast.Tuple) and [ast.unparse(e) for e in val.elts] == [ast.unparse(e) for e in s.targets[0].elts])):
-                    new.append(self._at(ast.Assign(targets=s.targets, value=val), s))
+                    tg0 = s.targets[0]
+                    split = False
+                    if len(s.targets) == 1 and isinstance(tg0, ast.Tuple) and isinstance(val, ast.Tuple) and len(tg0.elts) == len(val.elts) and all(isinstance(e, ast.Name) for e in tg0.elts):
+                        # `T1, T2 = (e1, e2)`: one statement per element (same order of evaluation) when no target is read by a later element
+                        tnames_ = [e.id for e in tg0.elts]
+                        safe = True
+                        for i_, e_ in enumerate(val.elts):
+                            reads_ = {n.id for n in ast.walk(e_) if isinstance(n, ast.Name)}
+                            if reads_ & set(tnames_[:i_]):
+                                safe = False
+                        if safe and len(set(tnames_)) == len(tnames_):
+                            for t_, e_ in zip(tg0.elts, val.elts):
+                                if not (isinstance(e_, ast.Name) and e_.id == t_.id):
+                                    new.append(self._at(ast.Assign(targets=[self._store(t_)], value=e_), s))
+                            split = True
+                    if not split:
+                        new.append(self._at(ast.Assign(targets=s.targets, value=val), s))
             elif ctx == "return":
                 new.append(self._at(ast.Return(value=val), s))
             elif ctx == "if":
